@@ -358,3 +358,21 @@ def real_threads_smoke(res, tier, seed, t_end):
                                  'detail': 'delivered %d + left %d of %d; stuck threads: %s' % (len(got), len(left), len(expect),
                                                                                                    any(t.is_alive() for t in ths))})
             return
+        # a timeout larger than anything Condition.wait accepts is still an honest timeout: the call waits and is served
+        box = []
+
+        def patient():
+            try:
+                box.append(fakeredis.FakeStrictRedis(server=srv).execute_command('BLPOP', 'qh', str(10 ** (12 + rd % 6))))
+            except BaseException as e:      # noqa
+                box.append(e)
+        th = threading.Thread(target=patient, daemon=True)
+        th.start()
+        _time.sleep(0.05)
+        fakeredis.FakeStrictRedis(server=srv).rpush('qh', 'late')
+        th.join(timeout=10)
+        res.evaluations += 1
+        if box != [[b'qh', b'late']] and box != [(b'qh', b'late')]:
+            res.add({'kind': 'threads', 'verdict': 'violation', 'property': 'C11', 'clause': 'huge_timeout_is_a_timeout',
+                     'detail': 'BLPOP qh 10**%d then RPUSH: got %r' % (12 + rd % 6, box)})
+            return
